@@ -48,16 +48,19 @@ struct Func {
     name: &'static str,
     params: [&'static str; 2],
     ret: &'static str,
-    shadowing_body: bool,
+    /// 0 = returns `ret`; 1 = `let b = a; let a = 77; b`; 2 = `let a = b; { a }` (a parameter re-bound, read in a nested block)
+    shadowing_body: u8,
 }
 
-const FUNCS: [Func; 5] = [
-    Func { name: "fa", params: ["a", "b"], ret: "a", shadowing_body: false },
-    Func { name: "fb", params: ["a", "b"], ret: "b", shadowing_body: false },
-    Func { name: "ga", params: ["b", "a"], ret: "a", shadowing_body: false },
-    Func { name: "gb", params: ["b", "a"], ret: "b", shadowing_body: false },
+const FUNCS: [Func; 6] = [
+    Func { name: "fa", params: ["a", "b"], ret: "a", shadowing_body: 0 },
+    Func { name: "fb", params: ["a", "b"], ret: "b", shadowing_body: 0 },
+    Func { name: "ga", params: ["b", "a"], ret: "a", shadowing_body: 0 },
+    Func { name: "gb", params: ["b", "a"], ret: "b", shadowing_body: 0 },
     // fn hs(a: u8, b: u8) -> u8 { let b: u8 = a; let a: u8 = 77; b }   -> returns the first argument
-    Func { name: "hs", params: ["a", "b"], ret: "a", shadowing_body: true },
+    Func { name: "hs", params: ["a", "b"], ret: "a", shadowing_body: 1 },
+    // fn hn(a: u8, b: u8) -> u8 { let a: u8 = b; { a } }   -> returns the second argument
+    Func { name: "hn", params: ["a", "b"], ret: "b", shadowing_body: 2 },
 ];
 
 fn func_defs() -> Vec<FnDef> {
@@ -65,8 +68,10 @@ fn func_defs() -> Vec<FnDef> {
         .iter()
         .map(|f| {
             let params = vec![(f.params[0].to_string(), Ty::U(8)), (f.params[1].to_string(), Ty::U(8))];
-            let body = if f.shadowing_body {
+            let body = if f.shadowing_body == 1 {
                 (vec![let_(Pat::id("b"), Ty::U(8), var("a")), let_(Pat::id("a"), Ty::U(8), dec(77))], Some(Box::new(var("b"))))
+            } else if f.shadowing_body == 2 {
+                (vec![let_(Pat::id("a"), Ty::U(8), var("b"))], Some(Box::new(block(vec![], Some(var("a"))))))
             } else {
                 (vec![], Some(Box::new(var(f.ret))))
             };
